@@ -307,3 +307,114 @@ def canonicalise(tree, classes, modfuncs=None):
     c.visit(tree)
     ast.fix_missing_locations(tree)
     return c.counts
+
+
+
+# ------------------------------------------------------------------------------------------------------------------
+# named tuples read as the tuples they are: `P = namedtuple("P", [...])`; `return P(a=x, b=y)`; `r = f(); r.b`  ->  `return (x, y)`; `r[1]`
+
+def namedtuple_tables(mods):
+    """(named tuple name -> field list, function name -> named tuple its every return builds) over the raw modules of src/"""
+    nts = {}
+    for mod in mods:
+        for st in mod.body:
+            if isinstance(st, ast.Assign) and len(st.targets) == 1 and isinstance(st.targets[0], ast.Name) and isinstance(st.value, ast.Call):
+                f = st.value.func
+                fname = f.id if isinstance(f, ast.Name) else (f.attr if isinstance(f, ast.Attribute) else None)
+                if fname == "namedtuple" and len(st.value.args) >= 2:
+                    fl = st.value.args[1]
+                    fields = None
+                    if isinstance(fl, (ast.List, ast.Tuple)) and all(isinstance(e, ast.Constant) and isinstance(e.value, str) for e in fl.elts):
+                        fields = [e.value for e in fl.elts]
+                    elif isinstance(fl, ast.Constant) and isinstance(fl.value, str):
+                        fields = fl.value.replace(",", " ").split()
+                    if fields:
+                        nts[st.targets[0].id] = fields
+            if isinstance(st, ast.ClassDef) and any((isinstance(b, ast.Name) and b.id == "NamedTuple") or (isinstance(b, ast.Attribute) and b.attr == "NamedTuple")
+                                                    for b in st.bases):
+                fields = [x.target.id for x in st.body if isinstance(x, ast.AnnAssign) and isinstance(x.target, ast.Name)]
+                if fields:
+                    nts[st.name] = fields
+    defs = {}
+    for mod in mods:
+        for fn in [n for n in ast.walk(mod) if isinstance(n, ast.FunctionDef)]:
+            defs.setdefault(fn.name, []).append(fn)
+    returns = {}
+    changed = True
+    while changed and nts:
+        changed = False
+        for name, fns in defs.items():
+            if len(fns) != 1 or name in returns:
+                continue
+            fn = fns[0]
+            rets = [r.value for r in ast.walk(fn) if isinstance(r, ast.Return) and r.value is not None]
+            if not rets:
+                continue
+            kinds = set()
+            for r in rets:
+                v = r
+                if isinstance(v, ast.Name):
+                    ds = [s_.value for s_ in ast.walk(fn) if isinstance(s_, ast.Assign) and any(isinstance(t, ast.Name) and t.id == v.id for t in s_.targets)]
+                    v = ds[0] if len(ds) == 1 else None
+                k = None
+                if isinstance(v, ast.Call):
+                    f = v.func
+                    cn = f.id if isinstance(f, ast.Name) else (f.attr if isinstance(f, ast.Attribute) else None)
+                    k = cn if cn in nts else returns.get(cn)
+                kinds.add(k)
+            if len(kinds) == 1 and None not in kinds:
+                returns[name] = kinds.pop()
+                changed = True
+    return nts, returns
+
+
+def namedtuples_as_tuples(tree, nts, returns):
+    """rewrite in place; -> number of rewritten nodes"""
+    if not nts:
+        return 0
+    n = [0]
+
+    class Build(ast.NodeTransformer):
+        def visit_Call(self, c):
+            self.generic_visit(c)
+            if isinstance(c.func, ast.Name) and c.func.id in nts and not any(isinstance(a, ast.Starred) for a in c.args) and all(k.arg for k in c.keywords):
+                fields = nts[c.func.id]
+                vals = dict(zip(fields, c.args))
+                vals.update({k.arg: k.value for k in c.keywords})
+                if set(vals) == set(fields):
+                    n[0] += 1
+                    return ast.copy_location(ast.Tuple(elts=[vals[f] for f in fields], ctx=ast.Load()), c)
+            return c
+
+    Build().visit(tree)
+    for fn in [x for x in ast.walk(tree) if isinstance(x, ast.FunctionDef)]:
+        holds = {}
+        for st in ast.walk(fn):
+            if isinstance(st, ast.Assign) and len(st.targets) == 1 and isinstance(st.targets[0], ast.Name) and isinstance(st.value, ast.Call):
+                f = st.value.func
+                cn = f.id if isinstance(f, ast.Name) else (f.attr if isinstance(f, ast.Attribute) else None)
+                if cn in returns:
+                    holds.setdefault(st.targets[0].id, set()).add(returns[cn])
+        others = {}
+        for st in ast.walk(fn):
+            if isinstance(st, ast.Assign):
+                for t in st.targets:
+                    if isinstance(t, ast.Name) and t.id in holds and not (isinstance(st.value, ast.Call) and (
+                            (st.value.func.id if isinstance(st.value.func, ast.Name) else getattr(st.value.func, "attr", None)) in returns)):
+                        others[t.id] = True
+        holds = {k: next(iter(v)) for k, v in holds.items() if len(v) == 1 and k not in others}
+        if not holds:
+            continue
+
+        class Field(ast.NodeTransformer):
+            def visit_Attribute(self, a):
+                self.generic_visit(a)
+                if isinstance(a.value, ast.Name) and a.value.id in holds and a.attr in nts[holds[a.value.id]] and isinstance(a.ctx, ast.Load):
+                    n[0] += 1
+                    return ast.copy_location(ast.Subscript(value=a.value, slice=ast.Constant(value=nts[holds[a.value.id]].index(a.attr)), ctx=ast.Load()), a)
+                return a
+
+        Field().visit(fn)
+    if n[0]:
+        ast.fix_missing_locations(tree)
+    return n[0]
